@@ -66,11 +66,13 @@ def run(ctx):
         ctx.coverage["event_bigrams"] = len(bigrams)
         ctx.coverage["call_outcomes"] = outcomes
         ctx.coverage["distinct_nontrivial"] = len(bigrams)
-    ctx.coverage["rule"] = ("Conn: 1–6 goroutines × 1–4 calls (ReadOffset(tag), ReadPartitions(t<tag>), ReadBatchWith(MaxWait=tag) holding the read lock) on one Conn over net.Pipe; "
+    ctx.coverage["rule"] = ("Buffered stress: 8 goroutines × 60 (thorough 400) barrier-synchronised ReadOffset(tag) rounds on one Conn over a unix socketpair, 6 (20) scenarios; "
+                            "Conn: 1–6 goroutines × 1–4 calls (ReadOffset(tag), ReadPartitions(t<tag>), ReadBatchWith(MaxWait=tag) holding the read lock) on one Conn over net.Pipe; "
                             "the broker holds 1..n requests and answers fifo / reversed / shuffled with gaps; faults by request index: drop, error code, header-then-late-body, "
                             "truncated body + close, close; single-caller scenarios add frames with foreign ids and duplicates; conn-wide deadlines 40–120 ms. "
                             "Transport: 2–7 goroutines × 1–4 RoundTrips (ListOffsets(tag) to the partition leader, FindCoordinator(g<tag>) on the control group), contexts with deadline / "
-                            "cancelled at a scripted time / generous; per-request faults delay, drop, wrong correlation id, close, answer after the deadline. "
+                            "cancelled at a scripted time / generous; per-request faults delay, drop, wrong correlation id, close, answer after the deadline; connections are socketpairs; every third scenario is the "
+                            "late-answer family (deadline 15–40 ms < scripted delay 80–140 ms, then the same request kind with another tag). Monitors: tag equality at the API and no in-flight id reused by a C.Write. "
                             "distinct_nontrivial = number of distinct bigrams of event kinds")
     concrete = [d for d in dis if d.get("kind") == "disagreement" and not d["holds_on_impl"]]
     others = [d for d in dis if d not in concrete]
